@@ -15,6 +15,7 @@ struct Zoo {
     unsigned char uc;        // rParam on an unsigned char
     int iv;                  // rParamI
     float fv;                // rParamF
+    double dv;               // rParamF on a double member
     bool tv;                 // rToggle
     int ov;                  // rOption
     char sv[12];             // rString (declared length 12)
@@ -26,14 +27,14 @@ struct Zoo {
 };
 #define rObject Zoo
 typedef std::function<void(const char *, rtosc::RtData &)> cb_t;
-static cb_t CB_sc = rParamCb(sc), CB_uc = rParamCb(uc), CB_iv = rParamICb(iv), CB_fv = rParamFCb(fv), CB_tv = rToggleCb(tv),
+static cb_t CB_sc = rParamCb(sc), CB_uc = rParamCb(uc), CB_iv = rParamICb(iv), CB_fv = rParamFCb(fv), CB_dv = rParamFCb(dv), CB_tv = rToggleCb(tv),
             CB_ov = rOptionCb(ov), CB_sv = rStringCb(sv, 12), CB_af = rArrayFCb(af), CB_ai = rArrayICb(ai), CB_at = rArrayTCb(at),
             CB_ao = rArrayOptionCb(ao);
 #undef rObject
 
-enum Kind { K_SC, K_UC, K_I, K_F, K_T, K_O, K_S, K_AF, K_AI, K_AT, K_AO, NKINDS };
-static const char *KNAME[] = {"rParam(char)", "rParam(uchar)", "rParamI", "rParamF", "rToggle", "rOption", "rString", "rArrayF", "rArrayI", "rArrayT", "rArrayOption"};
-static const char *KSPEC[] = {"::c", "::c", "::i", "::f", "::T:F", "::i:c:S", "::s", "::f", "::i", "::T:F", "::i:c:S"};
+enum Kind { K_SC, K_UC, K_I, K_F, K_T, K_O, K_S, K_FD, K_AF, K_AI, K_AT, K_AO, NKINDS };
+static const char *KNAME[] = {"rParam(char)", "rParam(uchar)", "rParamI", "rParamF", "rToggle", "rOption", "rString", "rParamF(double)", "rArrayF", "rArrayI", "rArrayT", "rArrayOption"};
+static const char *KSPEC[] = {"::c", "::c", "::i", "::f", "::T:F", "::i:c:S", "::s", "::f", "::f", "::i", "::T:F", "::i:c:S"};
 static bool is_array(int k) { return k >= K_AF; }
 
 struct DynPorts : rtosc::Ports {
@@ -79,7 +80,7 @@ static Config gen_config(Rng &r)
     static const char *NAMES[] = {"vol", "pan", "cutoff", "Penabled", "mode", "x", "detune", "label", "a_b", "depth"};
     c.name = NAMES[r.below(10)];
     int k = c.kind;
-    bool numeric = k == K_SC || k == K_UC || k == K_I || k == K_F || k == K_AF || k == K_AI || k == K_O || k == K_AO;
+    bool numeric = k == K_SC || k == K_UC || k == K_I || k == K_F || k == K_FD || k == K_AF || k == K_AI || k == K_O || k == K_AO;
     c.meta = ":parameter";
     c.meta.push_back('\0');
     if(k == K_O || k == K_AO) {
@@ -106,13 +107,13 @@ static Config gen_config(Rng &r)
     } else if(numeric) {
         int shape = (int)r.below(6);   // both, both negative, min only, max only, none, degenerate
         double lo, hi;
-        if(k == K_F || k == K_AF) {
+        if(k == K_F || k == K_AF || k == K_FD) {
             static const double LO[] = {0, -1, -8.5, 0.25, -100, 1e-3}, HI[] = {1, 1, 8.5, 15.2, -0.5, 20000};
             int i = (int)r.below(6); lo = LO[i]; hi = HI[i];
         } else if(k == K_UC) { static const int LO[] = {0, 0, 10, 64, 1}, HI[] = {127, 255, 20, 200, 1}; int i = (int)r.below(5); lo = LO[i]; hi = HI[i]; }
         else if(k == K_SC || k == K_AI) { static const int LO[] = {0, -64, -128, -10, 5}, HI[] = {127, 63, 127, -3, 5}; int i = (int)r.below(5); lo = LO[i]; hi = HI[i]; }
         else { static const int LO[] = {0, -64, INT_MIN, -1000, 0, 7}, HI[] = {127, 63, INT_MAX, 1000, 16383, 7}; int i = (int)r.below(6); lo = LO[i]; hi = HI[i]; }
-        auto num = [&](double v) { return (k == K_F || k == K_AF) ? fmt("%.10g", v) : fmt("%lld", (long long)v); };
+        auto num = [&](double v) { return (k == K_F || k == K_AF || k == K_FD) ? fmt("%.10g", v) : fmt("%lld", (long long)v); };
         if(shape != 3 && shape != 4) { c.has_min = true; c.mn = lo; c.smin = num(lo); }
         if(shape != 2 && shape != 4) { c.has_max = true; c.mx = hi; c.smax = num(hi); }
     }
@@ -123,7 +124,7 @@ static Config gen_config(Rng &r)
     c.meta += ":documentation"; c.meta.push_back('\0'); c.meta += "=doc"; c.meta.push_back('\0');
     if(is_array(k)) { c.N = (int)r.range(1, 8); c.full = c.name + "#" + std::to_string(c.N) + KSPEC[k]; }
     else c.full = c.name + KSPEC[k];
-    static cb_t *CBS[] = {&CB_sc, &CB_uc, &CB_iv, &CB_fv, &CB_tv, &CB_ov, &CB_sv, &CB_af, &CB_ai, &CB_at, &CB_ao};
+    static cb_t *CBS[] = {&CB_sc, &CB_uc, &CB_iv, &CB_fv, &CB_tv, &CB_ov, &CB_sv, &CB_dv, &CB_af, &CB_ai, &CB_at, &CB_ao};
     c.cb = *CBS[k];
     return c;
 }
@@ -152,10 +153,10 @@ static Incoming gen_incoming(Rng &r, const Config &c, const std::string &prefix)
         case K_SC: case K_AI: in.type = k == K_SC ? 'c' : 'i'; in.i = (int32_t)std::max(-128.0, std::min(127.0, floor(around(lo, hi, -128, 127)))); break;
         case K_UC: in.type = 'c'; in.i = (int32_t)std::max(0.0, std::min(255.0, floor(around(lo, hi, 0, 255)))); break;
         case K_I: { double v = around(lo, hi, INT_MIN, INT_MAX); in.type = 'i'; in.i = v >= 2147483647.0 ? INT_MAX : v <= -2147483648.0 ? INT_MIN : (int32_t)floor(v); break; }
-        case K_F: case K_AF: {
+        case K_F: case K_AF: case K_FD: {
             in.type = 'f'; double v = around(lo, hi, -3.0e38, 3.0e38); if(r.chance(0.3)) v += 0.37; in.f = (float)v;
             // the smallest possible changes: a neighbouring float of the stored value (a change!), or the stored value again (none)
-            float cur = k == K_F ? g_z.fv : g_z.af[in.idx];
+            float cur = k == K_F ? g_z.fv : k == K_FD ? (float)g_z.dv : g_z.af[in.idx];
             if(r.chance(0.15)) { in.f = nextafterf(cur, r.chance(0.5) ? INFINITY : -INFINITY); count("msgs.float_one_ulp_step"); }
             else if(r.chance(0.05)) in.f = cur;
             break; }
@@ -256,6 +257,10 @@ static void run_config(Rng &r)
             case K_UC: { old_num = before.uc; double v = in.query ? old_num : clampd((unsigned char)in.i, 0, 255); expect.uc = (unsigned char)v; exp_type = "c"; exp_num = v; break; }
             case K_I: { old_num = before.iv; double v = in.query ? old_num : clampd(in.i, INT_MIN, INT_MAX); expect.iv = (int)v; exp_type = "i"; exp_num = v; break; }
             case K_F: { old_num = before.fv; float v = in.query ? before.fv : in.f; if(!in.query) { if(c.has_min && v < (float)c.mn) v = (float)c.mn; if(c.has_max && v > (float)c.mx) v = (float)c.mx; } expect.fv = v; exp_type = "f"; exp_num = v; break; }
+            case K_FD: { old_num = before.dv; double v = in.query ? before.dv : (double)in.f;
+                         // the member is a double: the bounds apply as the metadata spells them, not rounded to single precision
+                         if(!in.query) { if(c.has_min && v < atof(c.smin.c_str())) v = atof(c.smin.c_str()); if(c.has_max && v > atof(c.smax.c_str())) v = atof(c.smax.c_str()); }
+                         expect.dv = v; exp_type = "f"; exp_num = v; break; }
             case K_AF: { old_num = before.af[idx]; float v = in.query ? before.af[idx] : in.f; if(!in.query) { if(c.has_min && v < (float)c.mn) v = (float)c.mn; if(c.has_max && v > (float)c.mx) v = (float)c.mx; } expect.af[idx] = v; exp_type = "f"; exp_num = v; break; }
             case K_AI: { old_num = before.ai[idx]; double v = in.query ? old_num : clampd((signed char)in.i, -128, 127); expect.ai[idx] = (int)v; exp_type = "i"; exp_num = v; break; }
             case K_T: { old_num = before.tv; bool v = in.query ? before.tv : in.t; expect.tv = v; exp_type = v ? "T" : "F"; exp_num = v; break; }
@@ -283,13 +288,13 @@ static void run_config(Rng &r)
             Zoo a, b;
             memcpy(&a, &g_z, sizeof a); memcpy(&b, &expect, sizeof b);
             bool target_wrong = false;
-            switch(c.kind) { case K_SC: target_wrong = a.sc != b.sc; break; case K_UC: target_wrong = a.uc != b.uc; break; case K_I: target_wrong = a.iv != b.iv; break; case K_F: target_wrong = memcmp(&a.fv, &b.fv, 4); break;
+            switch(c.kind) { case K_SC: target_wrong = a.sc != b.sc; break; case K_UC: target_wrong = a.uc != b.uc; break; case K_I: target_wrong = a.iv != b.iv; break; case K_F: target_wrong = memcmp(&a.fv, &b.fv, 4); break; case K_FD: target_wrong = memcmp(&a.dv, &b.dv, 8); break;
                              case K_T: target_wrong = a.tv != b.tv; break; case K_O: target_wrong = a.ov != b.ov; break; case K_AF: target_wrong = memcmp(&a.af[idx], &b.af[idx], 4); break; case K_AI: target_wrong = a.ai[idx] != b.ai[idx]; break;
                              case K_AT: target_wrong = a.at[idx] != b.at[idx]; break; case K_AO: target_wrong = a.ao[idx] != b.ao[idx]; break; default: break; }
             std::vector<std::string> tags;
             if(c.has_min != c.has_max) tags.push_back("one_sided_range");
             if(in.query) fail("query_changed_state", tags, desc, "runtime object modified", "unchanged");
-            else if(target_wrong) fail("stored_value", tags, desc, fmt("stored value differs (sc=%d uc=%d iv=%d fv=%.9g ov=%d ai=%d af=%.9g)", a.sc, a.uc, a.iv, a.fv, a.ov, a.ai[idx], a.af[idx]), fmt("%.9g", exp_num));
+            else if(target_wrong) fail("stored_value", tags, desc, fmt("stored value differs (sc=%d uc=%d iv=%d fv=%.9g dv=%.17g ov=%d ai=%d af=%.9g)", a.sc, a.uc, a.iv, a.fv, a.dv, a.ov, a.ai[idx], a.af[idx]), fmt("%.9g", exp_num));
             else fail("touched_other_state", tags, desc, "a field/element other than the addressed one changed", "only the addressed element");
             memcpy(&g_z, &expect, sizeof g_z);
         }
@@ -325,7 +330,7 @@ static void run_config(Rng &r)
                     bool ok = ts.size() == 3 && ts[0] == 's' && full == rtosc_argument(u, 0).s;
                     double o = 0, nw = 0;
                     if(ok) { if(ts[1] == 'f') { o = rtosc_argument(u, 1).f; nw = rtosc_argument(u, 2).f; } else { o = rtosc_argument(u, 1).i; nw = rtosc_argument(u, 2).i; } }
-                    bool is_f = c.kind == K_F || c.kind == K_AF;
+                    bool is_f = c.kind == K_F || c.kind == K_AF || c.kind == K_FD;
                     if(!ok || (ts[1] == 'f') != is_f || o != (is_f ? (double)(float)old_num : old_num) || nw != (is_f ? (double)(float)exp_num : exp_num))
                         fail("undo_event_content", {is_f ? "float_port" : "int_port"}, desc, show_msg(undo[0]), fmt("/undo_change %s old=%.9g new=%.9g", full.c_str(), old_num, exp_num));
                 }
